@@ -229,3 +229,12 @@ def r_block_coordinates(ctx):
 def check(ctx):
     r_filter(ctx)
     r_block_coordinates(ctx)
+    # callee-side contracts the alignment of points, data and weights rests on (assume/guarantee): check_fit_input returns the
+    # validated values unreordered and C-raveled; n_1d_arrays / kdtree number the points in the same order
+    from . import c02
+    ctx.alias = {"R4": "R5"}
+    try:
+        c02.r4_check_fit_input(ctx)
+    finally:
+        ctx.alias = {}
+    K.point_order_contract(ctx, "R5")
